@@ -20,6 +20,10 @@ from ..report import Out
 from .. import meshspace as ms
 
 ID = 'C15'
+# sub-checks added after the seeded-change waves (DESIGN.md sections 5 and 6)
+EXTENSIONS = [
+    '118 -> 140 operations: tagged meshes of every cell type, oriented / second-order operands, kept condense / mpc systems, kept bases (results stay intact), orientation-dependent elements on equal-sized meshes, meshes sharing the vertex array, point sets 2^-27 apart or sharing entries, solve-time options, a far-from-converged solver, one threaded form for two local shapes',
+]
 LEVEL = 'model_checking'
 TECHNIQUE = "explicit-state BFS over public-API operation histories on a shared object pool; differential oracle pool-vs-fresh; operand digests"
 LEVEL_TEXT = ("States = cache contents of a pool of real objects (two triangle meshes with equal cell count and different geometry, "
